@@ -94,7 +94,13 @@ int main(void) {
             } else if (!strcmp(op, "get")) {
                 size_t nk = unhex(a1, b1); void *k = dupbuf(b1, nk); size_t ds = 12345;
                 errno = 0; ncmp_calls = 0;
-                void *d = qtreetbl_getobj(t, k, nk, &ds, true);
+                void *d; static unsigned getno;
+                if (nk == sizeof(size_t) && (++getno & 1)) {
+                    /* an 8-byte key looked up through ONE variable that is the key on input and receives the size on output
+                       (size_t io = key; getobj(tbl, &io, sizeof io, &io, ...)): the key is read before the size is stored */
+                    size_t io; memcpy(&io, k, sizeof io);
+                    d = qtreetbl_getobj(t, &io, sizeof io, &io, true); ds = io;
+                } else d = qtreetbl_getobj(t, k, nk, &ds, true);
                 int e = errno; long c = ncmp_calls; scribble_free(k, nk);
                 if (d) { puthex(stdout, d, ds); free(d); } else printf("%s", (e == ENOENT || e == EINVAL) ? "none" : "-");
                 if (nk) printf(" cmps=%ld", c);
@@ -107,6 +113,15 @@ int main(void) {
             } else if (!strcmp(op, "min") || !strcmp(op, "max")) {
                 size_t ns = 0; void *n = op[1] == 'i' ? qtreetbl_find_min(t, &ns) : qtreetbl_find_max(t, &ns);
                 if (n) { puthex(stdout, n, ns); free(n); } else printf("none");
+            } else if (!strcmp(op, "otherwalk")) {
+                /* otherwalk <n>: n walk starts (one step each, abandoned) and one complete walk on ANOTHER table of this process;
+                   nothing done to another table may show in this one.  Prints what `size` prints. */
+                static qtreetbl_t *other; int n = atoi(a1);
+                if (!other) { other = qtreetbl(0); other->putstr(other, "x", "1"); other->putstr(other, "y", "2"); other->putstr(other, "z", "3"); }
+                for (int i = 0; i < n; i++) { qtreetbl_obj_t o; memset(&o, 0, sizeof o); (void)other->getnext(other, &o, false); }
+                { qtreetbl_obj_t o; memset(&o, 0, sizeof o); while (other->getnext(other, &o, false)) ; }
+                other->putstr(other, "w", "4"); other->remove(other, "w");
+                printf("%zu", qtreetbl_size(t));
             } else if (!strcmp(op, "walk") || !strcmp(op, "near")) {
                 qtreetbl_obj_t o; memset(&o, 0, sizeof o); int n, first = 1, ended = 0, have = 1;
                 if (op[0] == 'n') {
